@@ -3,7 +3,7 @@ CONSTANTS
  N = 3
  T = 2
  NV = 2
- Cmds = {1, 2, 3, 4}
+ Cmds = {1, 2, 3}
  DupLastWins = TRUE
  Defect = "none"
  Honest = {1, 2}
@@ -23,7 +23,7 @@ CONSTANTS
  NodeWatch = TRUE
  MaxNode = 1
  Policy = "free"
-INVARIANTS Safety ViewNewest TimerSane
-PROPERTIES MCFetchWritesGood MCFileStable MCNodeKeeps MCSignJoins
+INVARIANTS Safety ViewNewestButD1 TimerSane
+PROPERTIES MCFetchWritesGoodButD1 MCFileStable MCNodeKeeps MCSignJoins
 VIEW View
 CHECK_DEADLOCK FALSE
